@@ -27,6 +27,10 @@ CHECKS.update({
    text="For every function that writes a metadata struct (24 writer parameters today): every scalar field is definitely written on every success return (must-write per return class); the value stored to encodedSize/encodedBytes is, as a linear form over SSA values, the value the encoder returns; the count field receives the count argument; no field of a kind the property names is stored a literal constant on a success path for non-empty input. Numeric truth of min/max/run counts is NOT decided; header-reader/writer layout agreement (M4) is not built.",
    note=TB + "In/out metadata parameters (FOR encoders) are exempt from M1 and covered by C15; 3 known findings (AdaptiveDecode encodedSize, AdaptiveReadMeta placeholders).",
    tech="static analysis: out-parameter must-write dataflow + SSA linear-form equality on LLVM IR"),
+ "C13": dict(engine="E-BOUNDS", cat="other", ref="DESIGN.md 4/C13, 3/E-BOUNDS",
+   text="For each of the 17 capacity-taking decoders every store, memset/memcpy and callee write through the output parameter is bounded: offset+size <= capacity*elemsize is proved from dominating guards, clamps and loop bounds, interprocedurally (callee write-extent summaries, and context-sensitive re-proving of a callee under the caller's facts). Local arrays and capacity-sized heap blocks inside the decoders are checked too. Sound but incomplete: unproven = reported. Does not decide whether the result is 0 or a correct prefix.",
+   note=TB + "size_t arithmetic on caller-trusted capacities does not wrap; distinct pointer parameters do not overlap; asserts are compiled out (NDEBUG).",
+   tech="static analysis: symbolic region-bounds analysis with linear forms, memory value numbering and a small entailment prover on LLVM IR"),
 })
 NA = {
  "C02": "losslessness of array codecs is value-level equality after arithmetic; no clause has a shape in the code that static analysis can decide (DESIGN.md 4/C02)",
